@@ -56,7 +56,12 @@ class C04(Spec):
         for _ in range(rng.randint(1, 4)):
             k = rng.randrange(3)
             r = rng.random()
-            if r < 0.3:
+            if r < 0.1 and w.host443():
+                # no port in the URL: the request goes to port 443, and the Host header carries no port
+                u = "https://%s%s/default-port%d?x=1" % (w.host443(), w.prefix, rng.randrange(100))
+                w.serve(u, netgen.ok_json({"type": "Note", "content": "on 443"}))
+                w.fetch(u)
+            elif r < 0.3:
                 self.webfinger_op(rng, w, k)
             elif r < 0.6:
                 u = w.url(k, rng.choice(paths))
